@@ -16,8 +16,33 @@ fn vec_op(r: &Rec) -> Vec<Vec<i128>> {
     let (acols, asize, amax, acol) = (u(6), u(7), u(8), u(9));
     let e = |i: usize| p[10 + i];
     let mut res = mk_vec_znx(n, rcols, rmax, rsize, &v64(&r.vs[0]));
-    let a = if r.vs.len() > 1 { mk_vec_znx(n, acols, amax, asize, &v64(&r.vs[1])) } else { mk_vec_znx(n, 1, 1, 1, &vec![0i64; n]) };
+    let a = if r.vs.len() > 1 && !(8201..=8204).contains(&r.code) { mk_vec_znx(n, acols, amax, asize, &v64(&r.vs[1])) } else { mk_vec_znx(n, 1, 1, 1, &vec![0i64; n]) };
     let code = r.code;
+    if (8201..=8204).contains(&code) {
+        return with_be!(be, BE, {
+            use poulpy_hal::layouts::{Backend, DataViewMut};
+            let m = module::<BE>(n);
+            let word = std::mem::size_of::<<BE as Backend>::ScalarBig>();
+            let mut big = m.vec_znx_big_alloc(acols, asize);
+            {
+                let d: &mut [u8] = big.data_mut().as_mut();
+                for (i, x) in r.vs[1].iter().enumerate() {
+                    if word == 8 { d[i * 8..i * 8 + 8].copy_from_slice(&(*x as i64).to_le_bytes()); }
+                    else { d[i * 16..i * 16 + 16].copy_from_slice(&x.to_le_bytes()); }
+                }
+            }
+            let mut sc = scratch_filled::<BE>(m.vec_znx_big_normalize_tmp_bytes() + 64, 0x2d2d2d2d2d2d2d2d);
+            let s = sc.borrow();
+            let (rb, ab, off) = (e(0) as usize, e(1) as usize, e(2) as i64);
+            match code {
+                8201 => m.vec_znx_big_normalize(&mut res, rb, off, rcol, &big, ab, acol, s),
+                8202 => m.vec_znx_big_normalize_add_assign(&mut res, rb, off, rcol, &big, ab, acol, s),
+                8203 => m.vec_znx_big_normalize_sub_assign(&mut res, rb, off, rcol, &big, ab, acol, s),
+                _ => m.vec_znx_big_normalize_negate(&mut res, rb, off, rcol, &big, ab, acol, s),
+            }
+            vec![to128(&dump_vec_znx(&res))]
+        });
+    }
     with_be!(be, BE, {
         let m = module::<BE>(n);
         let fill = if code == 8107 { e(2) as i64 } else { 0x5a5a5a5a5a5a5a5a_u64 as i64 };
@@ -89,7 +114,7 @@ fn kernel(r: &Rec) -> Vec<Vec<i128>> {
             with_znx!(be, T, { T::znx_mul_power_of_two_assign(k, &mut x) }); vec![to128(&x)] }
         8024 => { let (be, k) = (p[0], p[1] as i64); let mut x = v[0].clone();
             with_znx!(be, T, { T::znx_muladd_power_of_two(k, &mut x, &v[1]) }); vec![to128(&x)] }
-        8101..=8199 => vec_op(r),
+        8101..=8299 => vec_op(r),
         _ => panic!("c08: unknown op {}", r.code),
     }
 }
@@ -164,24 +189,29 @@ fn limb_vals(rng: &mut Rng, cnt: usize, b: i64) -> Vec<i128> {
 pub fn gen_vec(rng: &mut Rng, tier: &str, out: &mut Vec<Rec>) {
     let reps = if tier == "thorough" { 12000 } else { 1500 };
     for it in 0..reps {
-        let code = 8101 + rng.below(10) as i64;
+        let code = if it % 5 == 4 { 8201 + rng.below(4) as i64 } else { 8101 + rng.below(10) as i64 };
         let be = rng.range(1, 4) as i128;
         let n = rng.pick(&[1usize, 2, 4, 8, 16]);
         let small = it % 3 == 0;
         let rb = if small { rng.range(1, 6) } else { rng.range(1, 50) };
-        let ab = if code == 8101 && rng.below(2) == 0 { if small { rng.range(1, 6) } else { rng.range(1, 50) } } else { rb };
+        let ab = if (code == 8101 || code >= 8201) && rng.below(2) == 0 { if small { rng.range(1, 6) } else { rng.range(1, 50) } } else { rb };
         let rcols = rng.range(1, 3) as usize; let acols = rng.range(1, 3) as usize;
         let rsize = rng.range(1, 5) as usize; let asize = rng.range(1, 5) as usize;
-        let rmax = rsize + rng.below(2) as usize; let amax = asize + rng.below(2) as usize;
+        let rmax = rsize + rng.below(2) as usize; let amax = if code >= 8201 { asize } else { asize + rng.below(2) as usize };
         let rcol = rng.below(rcols as u64) as usize; let acol = rng.below(acols as u64) as usize;
         let abits = (asize as i64) * ab;
         let resf = limb_vals(rng, n * rcols * rmax, rb);
-        let af = limb_vals(rng, n * acols * amax, ab);
+        let mut af = limb_vals(rng, n * acols * amax, ab);
+        if code >= 8201 {
+            // big accumulators hold un-normalised sums: widen (i128 range for the NTT120 family)
+            let sh = if be >= 3 && rng.below(3) == 0 { rng.range(20, 60) } else { rng.range(0, 8) };
+            for x in af.iter_mut() { *x = (*x << sh) + (*x >> 3); if be <= 2 { *x = (*x as i64) as i128; } }
+        }
         let hdr = |extra: Vec<i128>| { let mut p = vec![be, n as i128, rcols as i128, rsize as i128, rmax as i128, rcol as i128, acols as i128, asize as i128, amax as i128, acol as i128]; p.extend(extra); p };
         let kmax = ((rsize.max(asize) as i64) + 2) * rb;
         let k = rng.range(0, kmax) as i128;
         let r = match code {
-            8101 => { let off = rng.range(-(abits + 2 * ab), abits + 2 * ab) as i128; Rec::new(code, hdr(vec![rb as i128, ab as i128, off]), vec![resf, af]) }
+            8101 | 8201..=8204 => { let off = rng.range(-(abits + 2 * ab), abits + 2 * ab) as i128; Rec::new(code, hdr(vec![rb as i128, ab as i128, off]), vec![resf, af]) }
             8102 => Rec::new(code, hdr(vec![rb as i128]), vec![resf]),
             8103 => Rec::new(code, hdr(vec![rb as i128, k]), vec![resf]),
             8107 => Rec::new(code, hdr(vec![rb as i128, k, rng.pick(&[0i64, 1, -1, 77, -12345]) as i128]), vec![resf]),
